@@ -140,12 +140,12 @@ def run(ctx, ck):
             if isinstance(x, ast.Name) and x.id in fl.rd.names and (x.id, at) not in seen:
                 seen.add((x.id, at))
                 for d in fl.def_exprs(x.id, at):
-                    if d[0] in ('assign', 'weak') and d[2] in body_ids and d[1] is not None:
+                    if d[0] in ('assign', 'weak', 'unpack') and d[2] in body_ids and d[1] is not None:
                         if depends_on_names(d[1], d[2], names, depth - 1, seen):
                             return True
         return False
     for c in calls:
-        if not restr or not depends_on_names(c.args[1], fl.node_id_of(c), restr, 4, set()):
+        if not restr or not depends_on_names(c.args[1], fl.node_id_of(c), restr, 8, set()):
             bad_masks.append(c)
         if norm(c.args[0]) != kv:
             bad_masks.append(c)
